@@ -9,8 +9,8 @@ import (
 	"fmt"
 	"hash/fnv"
 	"runtime"
-	"strings"
 	"runtime/debug"
+	"strings"
 	"sync"
 	"sync/atomic"
 	"testing"
@@ -652,11 +652,11 @@ func (s *Sim) SetPoolDrop(permille int) {
 func (s *Sim) Tracing() bool { return s.cfg.KeepLog }
 
 // Results.
-func (s *Sim) Steps() int            { return s.steps }
-func (s *Sim) Switches() int         { return s.switches }
-func (s *Sim) LogHash() uint64       { return s.logHash }
-func (s *Sim) SchedSig() uint64      { return s.schedSig }
+func (s *Sim) Steps() int             { return s.steps }
+func (s *Sim) Switches() int          { return s.switches }
+func (s *Sim) LogHash() uint64        { return s.logHash }
+func (s *Sim) SchedSig() uint64       { return s.schedSig }
 func (s *Sim) SimTime() time.Duration { return s.end.Sub(s.start) }
-func (s *Sim) NumFailures() int      { return s.nfail }
-func (s *Sim) NumTasks() int         { return len(s.tasks) }
+func (s *Sim) NumFailures() int       { return s.nfail }
+func (s *Sim) NumTasks() int          { return len(s.tasks) }
 func (s *Sim) Elapsed() time.Duration { return time.Since(s.start) }
